@@ -428,4 +428,83 @@ theorem rwRun_bounded (matcher : Bytes → List MatchRes) (templates : List Byte
           simp only [rwRewritesLeft] at h3 ⊢
           omega
 
+/-! ### evhost -/
+
+theorem slice_infix (a : Bytes) (x y : Nat) : (a.drop x).take y <:+: a :=
+  (List.take_prefix _ _).isInfix.trans (List.drop_suffix _ _).isInfix
+
+theorem evScanLabels_infix (a : Bytes) : ∀ (i col k : Nat) (acc : List (Nat × Bytes)),
+    (∀ e ∈ acc, e.2 <:+: a) → ∀ e ∈ evScanLabels a i col k acc, e.2 <:+: a := by
+  intro i
+  induction i with
+  | zero =>
+    intro col k acc h e he
+    simp only [evScanLabels] at he
+    split at he
+    · simp only [List.mem_cons] at he
+      rcases he with he | he
+      · subst he; exact (List.take_prefix _ _).isInfix
+      · exact h e he
+    · exact h e he
+  | succ i ih =>
+    intro col k acc h e he
+    simp only [evScanLabels] at he
+    split at he
+    · split at he
+      · refine ih _ _ _ ?_ e he
+        intro e' he'
+        simp only [List.mem_cons] at he'
+        rcases he' with he' | he'
+        · subst he'; exact slice_infix a _ _
+        · exact h e' he'
+      · exact ih _ _ _ h e he
+    · exact ih _ _ _ h e he
+
+theorem evParseHost_infix (a : Bytes) : ∀ e ∈ evParseHost a, e.2 <:+: a := by
+  intro e he
+  unfold evParseHost at he
+  simp only at he
+  split at he
+  · split at he
+    · simp only [List.mem_singleton] at he; subst he; exact List.infix_refl _
+    · split at he
+      · simp only [List.mem_singleton] at he; subst he; exact (List.take_prefix _ _).isInfix
+      · simp at he
+  · generalize evScanDomain a a.length a.length true = pc at he
+    obtain ⟨ptr, col⟩ := pc
+    simp only at he
+    split at he
+    · simp only [List.mem_cons, List.mem_reverse] at he
+      rcases he with he | he
+      · subst he; exact slice_infix a _ _
+      · exact evScanLabels_infix a _ _ _ [] (by simp) e he
+    · simp only [List.mem_singleton] at he; subst he; exact slice_infix a _ _
+
+theorem evLookup_mem {tbl : List (Nat × Bytes)} {n : Nat} {v : Bytes} (h : evLookup tbl n = some v) :
+    ∃ e ∈ tbl, e.2 = v := by
+  unfold evLookup at h
+  simp only [Option.map_eq_some_iff] at h
+  obtain ⟨e, he, hv⟩ := h
+  exact ⟨e, by simpa using List.mem_of_find?_eq_some he, hv⟩
+
+theorem mem_takeWhile_imp {p : UInt8 → Bool} {x : UInt8} : ∀ {l : List UInt8}, x ∈ l.takeWhile p → p x = true
+  | [], h => by simp at h
+  | a :: l, h => by
+    rw [List.takeWhile_cons] at h
+    split at h
+    · simp only [List.mem_cons] at h
+      rcases h with h | h
+      · subst h; assumption
+      · exact mem_takeWhile_imp h
+    · simp at h
+
+theorem getD_zero_or_mem (v : List UInt8) (i : Nat) : v.getD i 0 = 0 ∨ v.getD i 0 ∈ v := by
+  rw [List.getD_eq_getElem?_getD]
+  cases h : v[i]? with
+  | none => left; simp
+  | some x => right; simp only [Option.getD_some]; exact List.mem_of_getElem? h
+
+theorem not_mem_of_infix {x : UInt8} {v a : Bytes} (h : v <:+: a) (hx : x ∉ a) : x ∉ v :=
+  fun hv => hx (h.subset hv)
+
 end LtVerif
